@@ -43,7 +43,10 @@ class Dim(Ty):
     """
     @staticmethod
     def upgrade(old):
-        return Dim(*[x.name for x in old.objects])
+        dims = [x.name for x in old.objects]
+        if 1 in dims:  # Dim(1) is the unit, such a wire comes from a foreign type
+            raise TypeError(messages.type_err(Dim, old))
+        return Dim(*dims)
 
     def __init__(self, *dims):
         dims = map(lambda x: x if isinstance(x, monoidal.Ob) else Ob(x), dims)
